@@ -192,6 +192,36 @@ void snoopy_tsrm_init ()
  * Return:
  *     void
  */
+/*
+ * snoopy_tsrm_forkGuard_enter/leave
+ *
+ * Description:
+ *     The fork() child handler below releases everything the entries of other threads own,
+ *     including the strings their configuration has parsed out of the config file. While a
+ *     thread replaces or releases those strings, its entry momentarily points to memory that
+ *     has already been freed; a fork() by another thread at that instant would make the child
+ *     free it a second time. fork() only proceeds while holding the threadRepo mutex (see
+ *     snoopy_tsrm_atfork_prepare()), therefore holding it here keeps fork() out.
+ *
+ * Params:
+ *     (none)
+ *
+ * Return:
+ *     void
+ */
+void snoopy_tsrm_forkGuard_enter ()
+{
+    pthread_once(&snoopy_tsrm_init_onceControl, &snoopy_tsrm_init);
+    pthread_mutex_lock(&snoopy_tsrm_threadRepo_mutex);
+}
+
+void snoopy_tsrm_forkGuard_leave ()
+{
+    pthread_mutex_unlock(&snoopy_tsrm_threadRepo_mutex);
+}
+
+
+
 void snoopy_tsrm_atfork_prepare ()
 {
     pthread_mutex_lock(&snoopy_tsrm_threadRepo_mutex);
